@@ -139,6 +139,11 @@ inductive NReach (cfg : NCfg) (s0 : NSt β) : NSt β → Prop
   | refl : NReach cfg s0 s0
   | step {w s s'} : NReach cfg s0 s → NStep cfg w s s' → NReach cfg s0 s'
 
+/-- Runs in which the writer is silent: only the kernel goroutine and the reader move. -/
+inductive NSysReach (cfg : NCfg) : NSt β → NSt β → Prop
+  | refl (s : NSt β) : NSysReach cfg s s
+  | step {w : Who} {s s' s'' : NSt β} : w ≠ .writer → NStep cfg w s s' → NSysReach cfg s' s'' → NSysReach cfg s s''
+
 /-- State after `NewNotify` (+ `Drain` when `tail`): `c0 = some c` – the file exists with content
     `c` (inode 0); `none` – it does not exist (only allowed with re-open). -/
 def ninit (c0 : Option (List β)) (tail : Bool) : NSt β :=
@@ -190,12 +195,13 @@ def PSt.pushOld (s : PSt β) : List Handle := s.hist ++ s.f.toList
 
 /-- `s.f, _ = os.Open(s.filename); if st.Size() >= s.readBytes { s.f.Seek(s.readBytes) } else { s.readBytes = 0 }`
     for a `Stat` that reported size `sz`. -/
+def openNew (s : PSt β) (sz : Nat) : PSt β :=
+  let rb := if s.readBytes ≤ sz then s.readBytes else 0
+  { s with f := openAt s.fs rb, readBytes := rb, hist := s.pushOld, rd := .attempt 0,
+           skips := if s.readBytes ≤ sz ∧ 0 < s.readBytes ∧ s.fs.path.isSome then s.skips + 1 else s.skips }
+
 def openStep (s : PSt β) (sz : Nat) : PSt β :=
-  if merges s sz then { s with rd := .attempt 0 }
-  else
-    let rb := if s.readBytes ≤ sz then s.readBytes else 0
-    { s with f := openAt s.fs rb, readBytes := rb, hist := s.pushOld, rd := .attempt 0,
-             skips := if s.readBytes ≤ sz ∧ 0 < s.readBytes ∧ s.fs.path.isSome then s.skips + 1 else s.skips }
+  if merges s sz then { s with rd := .attempt 0 } else openNew s sz
 
 inductive PStep (cfg : PCfg) : Who → PSt β → PSt β → Prop
   /- writer -/
@@ -228,6 +234,11 @@ inductive PStep (cfg : PCfg) : Who → PSt β → PSt β → Prop
 inductive PReach (cfg : PCfg) (s0 : PSt β) : PSt β → Prop
   | refl : PReach cfg s0 s0
   | step {w s s'} : PReach cfg s0 s → PStep cfg w s s' → PReach cfg s0 s'
+
+/-- Runs in which the writer is silent. -/
+inductive PSysReach (cfg : PCfg) : PSt β → PSt β → Prop
+  | refl (s : PSt β) : PSysReach cfg s s
+  | step {s s' s'' : PSt β} : PStep cfg .reader s s' → PSysReach cfg s' s'' → PSysReach cfg s s''
 
 /-- State after `NewPolling` (+ `Drain` when `tail`). -/
 def pinit (c0 : Option (List β)) (tail : Bool) : PSt β :=
